@@ -360,6 +360,20 @@ class Engine:
                 if tgt.startswith('contract:'):
                     return self.call_contract(tgt[len('contract:'):], n, ctx, ev)
                 return self.construct(tgt, n, ctx, ev)
+            lam = ctx.env.get('__lambda__' + name)
+            if lam is not None:
+                # a local `name = lambda a, ..: body`: the call is the body with the parameters bound (free names read the current state)
+                if len(lam.args.args) != len(n.args) or n.keywords or lam.args.defaults:
+                    raise OutOfSubset('call of a local lambda with keywords / defaults')
+                vals = [ev.ev(a, ctx) for a in n.args]
+                saved = dict(ctx.env)
+                for a_, v_ in zip(lam.args.args, vals):
+                    ctx.env[a_.arg] = v_
+                try:
+                    return ev.ev(lam.body, ctx)
+                finally:
+                    ctx.env.clear()
+                    ctx.env.update(saved)
             b = getattr(self, 'bi_' + name, None)
             if b is not None:
                 return b(n, ctx, ev)
@@ -689,6 +703,11 @@ class Engine:
             return V(s.ty, z3.Store(s.t, coerce(x, s.ty.elem).t, True))
         if name == 'sorted_set':
             return self.sorted_of_set(ev.ev(n.args[0], ctx), ctx)
+        if name in ('float_of', 'float_parses'):
+            x = ev.ev(n.args[0], ctx)
+            if name == 'float_of':
+                return V(REAL, z3.Function('float_of', z3.StringSort(), z3.RealSort())(x.t))
+            return V(BOOL, z3.Function('float_parses', z3.StringSort(), z3.BoolSort())(x.t))
         if name == 'py_str':
             # the text an f-string writes for a number (the function the code's own f'{x}' denotes, LC-NUMTEXT)
             x = ev.ev(n.args[0], ctx)
@@ -1193,7 +1212,15 @@ class Engine:
         v = ev.unwrap_opt(ev.ev(n.args[0], ctx), ctx)
         if is_num(v):
             return V(REAL, to_real(v))
-        raise OutOfSubset('float(str)')
+        if v.ty == STR:
+            # LC-NUMTEXT: float(text) either raises ValueError or returns a number determined by the text
+            ok = z3.Function('float_parses', z3.StringSort(), z3.BoolSort())
+            val = z3.Function('float_of', z3.StringSort(), z3.RealSort())
+            ctx.exc('ValueError', z3.Not(ok(v.t)))
+            ctx.assume(z3.Not(ok(z3.StringVal(''))))
+            self.libs_used.add('LC-NUMTEXT: float(text) raises ValueError or returns float_of(text); the empty text does not parse')
+            return V(REAL, val(v.t))
+        raise OutOfSubset('float(non-number)')
 
     def bi_int(self, n, ctx, ev):
         v = ev.unwrap_opt(ev.ev(n.args[0], ctx), ctx)
